@@ -18,12 +18,28 @@ func init() {
 // guardedWhere reports whether node n is guarded by some block-ending condition / outcome for which
 // leaf (applied through parens, negations, conjunctions, disjunctions and predicate literals) holds.
 func guardedWhere(g *an.Graph, n ast.Node, leaf func(ex ast.Expr, val bool) bool) bool {
+	return guardedWhereIn(nil, nil, g, n, leaf)
+}
+
+// guardedWhereIn additionally looks through calls of single-return predicate helpers of the workspace (fields are
+// identified by their objects, so the helper's own receiver name does not matter).
+func guardedWhereIn(e *Env, info *types.Info, g *an.Graph, n ast.Node, leaf func(ex ast.Expr, val bool) bool) bool {
 	var lf func(ex ast.Expr, val bool) bool
+	depth := 0
 	lf = func(ex ast.Expr, val bool) bool {
 		if call, ok := an.Unparen(ex).(*ast.CallExpr); ok {
 			if lit, ok := an.Unparen(call.Fun).(*ast.FuncLit); ok && len(lit.Body.List) > 0 {
 				if rs, ok := lit.Body.List[len(lit.Body.List)-1].(*ast.ReturnStmt); ok && len(rs.Results) == 1 {
 					return an.Implies(rs.Results[0], val, lf)
+				}
+			}
+			if e != nil && info != nil && depth < 3 {
+				if callee := e.Ix.FuncOf(an.CalleeFunc(info, call)); callee != nil {
+					if r := singleReturn(callee); r != nil {
+						depth++
+						defer func() { depth-- }()
+						return an.Implies(r, val, lf)
+					}
 				}
 			}
 		}
@@ -192,7 +208,7 @@ func runCRDTSection(c *core.Ctx) {
 		g, info := e.Graph(bc), bc.Pkg.Info
 		budgetSpent := func(ex ast.Expr, val bool) bool {
 			be, ok := ex.(*ast.BinaryExpr)
-			if !ok || an.SelectedField(info, be.X) != a.count {
+			if !ok || an.SelectedField(info, an.ResolveLocal(info, bc.Body(), be.X)) != a.count {
 				return false
 			}
 			tv := info.Types[be.Y]
